@@ -347,8 +347,13 @@ impl Model {
                     if q.allow_scrape || limit <= q.scrape_limit {
                         ScrapeRule::Forbidden
                     } else if since > maxtime {
-                        // inverted window: the statement does not say; either, but no panic
-                        ScrapeRule::Free
+                        // an empty window spans zero seconds: any positive seconds allowance covers
+                        // it; with a zero allowance the statement does not say
+                        if q.scrape_secs > 0 {
+                            ScrapeRule::Forbidden
+                        } else {
+                            ScrapeRule::Free
+                        }
                     } else if maxtime - since < q.scrape_secs {
                         ScrapeRule::Forbidden
                     } else {
